@@ -110,6 +110,10 @@ fn dec_bytes<T: Modelled + Decode>(b: Vec<u8>) -> Option<(Val, usize)> {
 	})
 }
 
+fn bytes_keep<T: Decode + 'static>(b: Vec<u8>) -> Option<Box<dyn core::any::Any>> {
+	parity_scale_codec::decode_from_bytes::<T>(bytes::Bytes::from(b)).ok().map(|x| Box::new(x) as Box<dyn core::any::Any>)
+}
+
 fn skip_dyn<T: Decode>(i: &mut dyn Input) -> bool {
 	T::skip(&mut Dyn(i)).is_ok()
 }
@@ -157,6 +161,8 @@ pub struct DecOps {
 	/// like `dynamic` but hands back the decoded object itself (kept alive by the caller)
 	pub keep: fn(&mut dyn Input) -> Option<Box<dyn core::any::Any>>,
 	pub bytes: fn(Vec<u8>) -> Option<(Val, usize)>,
+	/// `decode_from_bytes`, handing back the decoded object
+	pub bytes_keep: fn(Vec<u8>) -> Option<Box<dyn core::any::Any>>,
 	pub skip: fn(&mut dyn Input) -> bool,
 	pub all: fn(&[u8]) -> Option<Val>,
 	pub depth_slice: fn(u32, &[u8]) -> (Option<Val>, usize),
@@ -211,6 +217,7 @@ impl TypeOps {
 			dynamic: dec_dyn::<T>,
 			keep: dec_keep::<T>,
 			bytes: dec_bytes::<T>,
+			bytes_keep: bytes_keep::<T>,
 			skip: skip_dyn::<T>,
 			all: dec_all::<T>,
 			depth_slice: dec_depth_slice::<T>,
